@@ -53,7 +53,11 @@ def gen_toc(rng, max_entries):
     for k in range(n):
         body = ''.join(f'<p>l{j}</p>' for j in range(rng.choice([0, 1, 1, 2, 3, 5])))
         brk = ' style="break-before:page"' if rng.random() < 0.15 else ''
-        sections.append(f'<h2 id="s{k}"{brk}>S{k}</h2>{body}')
+        if rng.random() < 0.3 and body:
+            # the anchor is on a block that may span pages: its page is the page of its first fragment
+            sections.append(f'<section id="s{k}"{brk}><h2>S{k}</h2>{body}</section>')
+        else:
+            sections.append(f'<h2 id="s{k}"{brk}>S{k}</h2>{body}')
     toc = '<div class="toc">' + ''.join(f'<a href="#s{k}">e{k} </a>' for k in order) + '</div>'
     if rng.random() < 0.15:
         toc = toc.replace('</div>', '<a href="#nowhere">x </a></div>')
@@ -66,6 +70,10 @@ def gen_toc(rng, max_entries):
         cut = rng.randint(0, n)
         body = front + ''.join(sections[:cut]) + toc + ''.join(sections[cut:])
     pages_in_content = rng.random() < 0.4
+    # a generated box long enough to be split over lines and pages: counted on the page of its first fragment
+    long_mark = pages_in_content and rng.random() < 0.4
+    # target-counter(…, pages) only for backward references: a forward one raises (finding target-counter-pages-forward-crash)
+    pages_ref = where == 'back' and rng.random() < 0.6
     margin = rng.random() < 0.5
     css = (
         f'@page {{ size: 200px {lines_per_page * 10 + (20 if margin else 0)}px; margin: 0; '
@@ -76,7 +84,10 @@ def gen_toc(rng, max_entries):
         f'.toc {{ width: {toc_chars * 10}px }}'
         'a { display: block }'
         f'a::after {{ content: target-counter(attr(href), page, {style}) }}'
-        + ('h2::after { content: " " counter(page) "-" counter(pages) }' if pages_in_content else ''))
+        + ('h2::after { content: " " counter(page) "-" counter(pages)'
+           + (' "|w w w w w w w"' if long_mark else '') + ' }' if pages_in_content else '')
+        + ('h2 { width: 50px }' if long_mark else '')
+        + ('a::before { content: target-counter(attr(href), pages) " " }' if pages_ref else ''))
     return {'html': f'<html><head><style>{css}</style></head><body>{body}</body></html>',
             'n': n, 'style': style, 'where': where, 'lines_per_page': lines_per_page,
             'pages_in_content': pages_in_content, 'margin': margin}
@@ -164,13 +175,14 @@ def observe(document):
                 key = id(box.element)
                 old = labels.get(key, (box.element.get('href'), '', index))
                 labels[key] = (old[0], old[1] + box.text, old[2])
-            elif isinstance(box, boxes.TextBox) and tag == 'h2::after':
+            elif tag == 'h2::after':
+                # the generated box "is on" the page of its first fragment, even an empty one left at a line end
                 key = ('h2', id(box.element))
                 old = marks.get(key, (index, ''))
-                marks[key] = (old[0], old[1] + box.text)
+                marks[key] = (old[0], old[1] + (box.text if isinstance(box, boxes.TextBox) else ''))
             elif box.element is not None and '::' not in tag and box.element.get('id'):
                 targets.setdefault(box.element.get('id'), index)
-    return (list(labels.values()), targets, [(i, t.strip()) for i, t in marks.values()],
+    return (list(labels.values()), targets, [(i, t.strip().split('|')[0]) for i, t in marks.values()],
             len(document.pages))
 
 
